@@ -86,7 +86,11 @@ def cheap_call(proxy, kind):
 def run_case(spec):
     from vf.realproc import run_with_watchdog
 
-    return run_with_watchdog(lambda: _run(spec), budget_s=180, what='manager history', hang_retries=0, hang_is_violation=False)
+    try:
+        return run_with_watchdog(lambda: _run(spec), budget_s=180, what='manager history', hang_retries=0, hang_is_violation=False)
+    except BaseException:
+        _teardown()  # later cases must start from a fresh, empty server
+        raise
 
 
 def _run(spec):
@@ -126,6 +130,11 @@ def _run(spec):
                 wrong = {k: (have[k], want[k]) for k in want if k in have and have[k] != want[k]}
                 clause = 'premature_destruction' if missing else ('leak' if leaked else 'refcount_mismatch')
                 kinds = {k: model.objs[k]['kind'] for k in list(missing) + list(wrong) if k in model.objs}
+                try:
+                    raw = {d['id']: (d['type'], d['preview'][:40]) for d in r.manager._debug_info() if d['id'] in leaked}
+                    kinds.update(raw)
+                except Exception:
+                    pass
                 raise Violation(clause, f'after step {step} {trace[-1]}: server has {have}, model expects {want}; leaked {leaked} missing {missing} wrong (have, want) {wrong} kinds {kinds}; history {trace}', signature=[clause, trace[-1][0]])
             time.sleep(0.005)
             # keep quiescing: the serving threads drop their last reply only at the next request
@@ -146,6 +155,7 @@ def _run(spec):
             if oid not in model.objs:
                 shm_names.pop(oid, None)
 
+    p = q = c = data = proc = pa = pb = conts = cs = None
     for step, (op, a, b) in enumerate(spec['ops']):
         trace.append([op, a, b])
         if op == 'create':
@@ -287,9 +297,13 @@ def _run(spec):
             helper.clear()
             r.start_helper()
         else:
+            trace[-1].append('skipped')
             continue
+        # no stale local may keep a proxy alive
+        p = q = c = data = proc = pa = pb = conts = cs = None
         settle(step)
     # cleanup: drop everything, the server must return to the empty state
+    p = q = c = data = proc = pa = pb = conts = cs = None
     trace.append(['cleanup', 0, 0])
     for k in list(helper):
         oid, kind = helper.pop(k)
